@@ -48,6 +48,23 @@ class Obligation:
         return (self.name, tuple(p.get_id() for p in self.pc), g)
 
 
+def has_quantifier(e):
+    seen = set()
+    stack = [e]
+    while stack:
+        t = stack.pop()
+        if not z3.is_expr(t):
+            continue
+        i = t.get_id()
+        if i in seen:
+            continue
+        seen.add(i)
+        if z3.is_quantifier(t):
+            return True
+        stack.extend(t.children())
+    return False
+
+
 class Ctx:
     def __init__(self, prefix, pending, facts=None, feas_timeout=1500):
         self.prefix = list(prefix)
@@ -88,7 +105,10 @@ class Ctx:
         if c is False:
             raise PathEnd()
         self.pc.append(c)
-        self.solver.add(c)
+        if not has_quantifier(c):
+            # the feasibility solver sees only the quantifier-free part of the path condition
+            # (a weaker condition: more paths are explored, none is lost)
+            self.solver.add(c)
 
     def feasible(self, c):
         self.solver.push()
